@@ -219,7 +219,17 @@ func gen(r *rand.Rand, thorough bool, i int) []string {
 		}
 	}
 	ops = append(ops, "merge")
-	if doHandle || (small && r.Intn(3) == 0) {
+	// incoherent mint payloads (same UserID under two indices) would make the users upsert touch one row twice:
+	// Postgres rejects that statement, sqlite does not — outside what the sqlite store can stand in for
+	rawMint := false
+	if !doHandle {
+		for _, o := range ops {
+			if strings.HasPrefix(o, fmt.Sprintf("ev 3 %d ", int(event.TagAddBridgeMint))) || strings.HasPrefix(o, fmt.Sprintf("ev 3 %d ", int(event.TagAuthorizerBurn))) {
+				rawMint = true
+			}
+		}
+	}
+	if doHandle || (small && !rawMint && r.Intn(3) == 0) {
 		ops = append(ops, "handle")
 	}
 	return ops
@@ -493,7 +503,10 @@ func oracle(ops, outs []string) *corr.Violation {
 				}
 			}
 			if got := parsePairs(kv["dbburn"]); !reflect.DeepEqual(got, wantBurn) {
-				return mk(lossSig[event.TagAuthorizerBurn], fmt.Sprintf("authorizers.total_burn after the block %v, burns emitted %v", got, wantBurn))
+				if !sameMultiset(pm.merged[int(event.TagAuthorizerBurn)], em[event.TagAuthorizerBurn]) {
+					return mk(lossSig[event.TagAuthorizerBurn], fmt.Sprintf("authorizers.total_burn after the block %v, burns emitted %v", got, wantBurn))
+				}
+				return mk("authorizer-burn-total-wrong", fmt.Sprintf("authorizers.total_burn after the block %v (update rows %s), burns delivered %v", got, kv["burn"], wantBurn))
 			}
 			// every mint counted toward its signers' totals
 			wantMint := map[string]uint64{}
